@@ -96,6 +96,10 @@ type c01Recv struct {
 
 // c01Expect is the specification model of what a consumer joining before message index join receives
 // (indices into the published list): prologue, cached GOPs, then the live run.
+// c01GopCap is the configured single_gop_max_frame_num of the instance (0 = no cap). lal applies it as "a GOP
+// holds its key frame plus at most cap further messages"; the model follows that reading of "cut at the cap".
+var c01GopCap = 0
+
 func c01Expect(kinds []int, join int, gopNum int, pub []base.RtmpMsg) []int {
 	meta, vsh, ash := -1, -1, -1
 	hasVideo := false
@@ -121,7 +125,9 @@ func c01Expect(kinds []int, join int, gopNum int, pub []base.RtmpMsg) []int {
 			}
 		default:
 			if gopNum > 0 && len(gops) > 0 {
-				gops[len(gops)-1] = append(gops[len(gops)-1], i)
+				if c01GopCap == 0 || len(gops[len(gops)-1]) <= c01GopCap {
+					gops[len(gops)-1] = append(gops[len(gops)-1], i)
+				}
 			}
 		}
 	}
@@ -303,6 +309,9 @@ func VerifC01Relay() {
 	cfg.RtmpConfig.GopNum = vrt.Param("gop")
 	cfg.HttpflvConfig.GopNum = vrt.Param("gop")
 	cfg.RtmpConfig.MergeWriteSize = vrt.Param("merge")
+	c01GopCap = vrt.Param("cap")
+	cfg.RtmpConfig.SingleGopMaxFrameNum = c01GopCap
+	cfg.HttpflvConfig.SingleGopMaxFrameNum = c01GopCap
 	g, _ := kitGroup(cfg)
 	pubSess, _ := kitRtmpSession()
 	vrt.Assert(g.AddRtmpPubSession(pubSess) == nil, "publisher accepted")
@@ -313,6 +322,11 @@ func VerifC01Relay() {
 		kinds[i] = pat % 6
 		pat /= 6
 		pub[i] = c01Make(kinds[i], "m")
+		if i == vrt.Param("big") {
+			// one message much larger than the others (larger than the merge-write threshold on its own)
+			pub[i].Payload = append(pub[i].Payload, vrt.Bytes("big", 60)...)
+			pub[i].Header.MsgLen = uint32(len(pub[i].Payload))
+		}
 	}
 	// conforming publisher: video frames follow a video sequence header, and an inter frame only follows a key frame of the same sequence header
 	// (a stream that starts its video mid-GOP cannot be made decodable by any relay)
